@@ -239,6 +239,16 @@ fn sink_dc<F: Family, H: AnyValue, T: Elem>(h: H, env: &Env<F>) -> Tok {
         None => Tok::N,
     }
 }
+/// tag 9: downcast to `any_vec::any_value::Unknown`, the marker type every type-erased value carries as its
+/// compile-time type; no element is of that type, so every checked downcast to it has to refuse
+fn sink_dc_unknown<H: AnyValue>(h: H) -> Tok {
+    use any_vec::any_value::Unknown;
+    let by_ref = h.downcast_ref::<Unknown>().is_some();
+    match h.downcast::<Unknown>() {
+        Some(x) => { std::mem::forget(x); Tok::Id("U".to_string()) }
+        None => if by_ref { Tok::Id("Uref".to_string()) } else { Tok::N },
+    }
+}
 fn sink_swap<F: Family, H: AnyValueMut, T: Elem>(h: H) -> Tok {
     let mut h = h;
     let mut w = AnyValueWrapper::new(T::make(reg::fresh()));
@@ -295,7 +305,7 @@ macro_rules! sink_value {
         match $sink {
             Sink::Drop => { drop(h); Tok::None }
             Sink::Forget => { std::mem::forget(h); Tok::None }
-            Sink::Dc(t) => dispatch_tag!($F, *t, [sink_dc], {$F, _,}, (h, $env)),
+            Sink::Dc(t) => if *t == 9 { sink_dc_unknown(h) } else { dispatch_tag!($F, *t, [sink_dc], {$F, _,}, (h, $env)) },
             Sink::Push(w) => {
                 let mut o = Some(h);
                 $env.with_vec(*w, |d| d.push_fwd(Forward::new(&mut o)));
@@ -782,7 +792,7 @@ macro_rules! impl_kind {
         // `v.at(i).lazy_clone()[.lazy_clone()..].downcast::<T>()`
         let e = $s.v.at($i);
         let tok = match $depth {
-            1 => dispatch_tag!($F, $ty, [sink_dc], {$F, _,}, (e.lazy_clone(), $env)),
+            1 => if $ty == 9 { sink_dc_unknown(e.lazy_clone()) } else { dispatch_tag!($F, $ty, [sink_dc], {$F, _,}, (e.lazy_clone(), $env)) },
             2 => { let l1 = e.lazy_clone(); dispatch_tag!($F, $ty, [sink_dc], {$F, _,}, (l1.lazy_clone(), $env)) }
             _ => { let l1 = e.lazy_clone(); let l2 = l1.lazy_clone();
                    dispatch_tag!($F, $ty, [sink_dc], {$F, _,}, (l2.lazy_clone(), $env)) }
